@@ -197,6 +197,7 @@ def ci_bounded(normalizer):
 def run(tier, seed):
     import core_impl as ci
     rep = Report("C06", tier, seed)
+    ci.CHECK_PURITY = True      # every operation must leave its arguments as they were
     proof_ok = common.proof_stage(rep, "C06")
     rng = random.Random(seed + 6)
     cls = ci.Cls("monoidal")
